@@ -13,6 +13,7 @@
   the scanner model Model/Lexer.lean, see DESIGN.md.
 -/
 import BqlVerif.Proofs.ParserRT2
+import BqlVerif.Proofs.LexerRT
 import BqlVerif.Model.Lexer
 import BqlVerif.Generated.Registry
 set_option autoImplicit false
@@ -133,6 +134,67 @@ theorem C06_roundtrip (l : LStmt) (h : wfStmt l) :
     have := hn m hm
     simp only [List.append_nil] at this
     simp [printStmt, parseStmt, isW, this, embedStmt]
+
+/-! ### the character level: the scanner reads written tokens back -/
+
+/-- **Scanner round trip.**  Written tokens — words in ANY letter case (read back in lower case), integers with leading
+    zeros, decimals `d.d`, `d.`, `.d`, dates, strings in either quote, table names, every symbol, `%s` / `%(name)s` in either
+    case — each followed by white space, are read back as exactly their tokens.  (`PhCtx`: a placeholder is written where an
+    operand may start; after an operand `%` is the modulo operator, as in the grammar.) -/
+theorem C06_lex (ws : List WTok) (hok : ∀ w ∈ ws, w.ok) (hph : PhCtx none ws) :
+    lex (renderW ws) = some (ws.flatMap WTok.toks) :=
+  lex_render ws hok hph
+
+/-- text to tree: if the written tokens are those of a well-formed written statement, scanning gives its tokens and
+    parsing them gives its tree -/
+theorem C06_text_roundtrip (ws : List WTok) (l : LStmt) (hok : ∀ w ∈ ws, w.ok) (hph : PhCtx none ws) (hl : wfStmt l)
+    (htoks : ws.flatMap WTok.toks = printStmt l) :
+    lex (renderW ws) = some (printStmt l) ∧ ∃ n, ∀ m, n ≤ m → parseStmt m (printStmt l) = some (embedStmt l) :=
+  ⟨by rw [← htoks]; exact lex_render ws hok hph, C06_roundtrip l hl⟩
+
+/-- every natural number has a decimal text that reads back as it -/
+def digitsAux : Nat → Nat → List Char
+  | 0, _ => []
+  | f + 1, n => if n < 10 then [Char.ofNat (48 + n)] else digitsAux f (n / 10) ++ [Char.ofNat (48 + n % 10)]
+
+def digitsOf (n : Nat) : List Char := digitsAux (n + 1) n
+
+theorem digit_char : ∀ d, d < 10 → digitVal (Char.ofNat (48 + d)) = d ∧ isDigit (Char.ofNat (48 + d)) = true := by decide
+
+theorem natOfDigitChars_snoc (xs : List Char) (c : Char) : natOfDigitChars (xs ++ [c]) = natOfDigitChars xs * 10 + digitVal c := by
+  simp [natOfDigitChars, List.foldl_append]
+
+theorem digitsAux_spec : ∀ f n, n < f →
+    natOfDigitChars (digitsAux f n) = n ∧ (∀ x ∈ digitsAux f n, isDigit x = true) ∧ digitsAux f n ≠ []
+  | 0, n, h => absurd h (Nat.not_lt_zero n)
+  | f + 1, n, h => by
+    unfold digitsAux
+    by_cases hn : n < 10
+    · have := digit_char n hn
+      simp only [hn, ↓reduceIte]
+      refine ⟨by simp [natOfDigitChars, this.1], ?_, by simp⟩
+      intro x hx; simp at hx; subst hx; exact this.2
+    · have hd := digit_char (n % 10) (Nat.mod_lt _ (by omega))
+      have ih := digitsAux_spec f (n / 10) (by omega)
+      simp only [hn, ↓reduceIte]
+      refine ⟨?_, ?_, by simp⟩
+      · rw [natOfDigitChars_snoc, ih.1, hd.1]; omega
+      · intro x hx
+        rcases List.mem_append.mp hx with h | h
+        · exact ih.2.1 x h
+        · simp at h; subst h; exact hd.2
+
+theorem C06_lit_int (n : Nat) : lex (renderW [.int (digitsOf n)]) = some [.int n] := by
+  have hs := digitsAux_spec (n + 1) n (Nat.lt_succ_self n)
+  have := lex_render [.int (digitsOf n)] (by intro w hw; simp at hw; subst hw; exact ⟨hs.2.2, hs.2.1⟩) ⟨by simp [WTok.isPh], trivial⟩
+  simpa [WTok.toks, digitsOf, hs.1] using this
+
+/-- a word in any letter case is read back in lower case -/
+example : lex (renderW [.word "SeLeCt".toList, .word "Foo_1".toList, .sym .le, .dec "007".toList "50".toList, .str '"' "it's".toList,
+      .date '2' '0' '2' '0' '0' '2' '2' '9', .sym .percent, .int "12".toList, .sym .comma, .phNamed "P".toList 'S']) =
+    some [.word "select", .word "foo_1", .sym .le, .dec 750 (-2) true, .str "it's", .date 2020 2 29, .sym .percent, .int 12, .sym .comma,
+      .phOpen, .word "p", .phClose] := by
+  decide +kernel
 
 /-! ### what the round trip fixes: precedence, associativity, parentheses (instances) -/
 
